@@ -707,6 +707,14 @@ func c01(r *h.Result, rng *h.Rng, tier string, replay string) error {
 	if err := c01HandlerErrText(r, rng.Fork(), nHE); err != nil {
 		return err
 	}
+	nPS, nPC := 300, 400
+	if tier != "quick" {
+		nPS, nPC = 5000, 20000
+	}
+	if err := c01PromiseSeq(r, rng.Fork(), nPS); err != nil {
+		return err
+	}
+	c01PromiseConc(r, rng.Fork(), nPC)
 	nProbe := 6
 	if tier != "quick" {
 		nProbe = 48
